@@ -63,22 +63,22 @@ REQUIRED_FEATURES = [
     "hist:drop", "hist:glob", "hist:config-recreated", "hist:fmt-change", "iter:suspended-across-op",
     "iter:by-lines",
     "merge:interleaved", "static:colored-differs-per-config", "static:palette-class-differs",
-    "static:strip-eq-no_color", "reset:orders-agree",
+    "static:strip-eq-no_color", "kept:line-objects-read-after-exhaustion", "reset:orders-agree",
 ]
 
 # ------------------------------------------------------------------------------------ alphabet
 _RENDER_Q = {
     "tbl": ["g", "cA", "cB", "nc", "pc", "po"],
-    "tbl2": ["g", "cA"],
+    "tbl2": ["g"],
     "pp": ["g", "cA", "nc", "pc"],
     "rec1": ["g", "cA", "cB", "nc"],
-    "rec2": ["cA", "cB"],
-    "recr": ["g", "cB"],
+    "rec2": ["cB"],
+    "recr": ["g"],
     "gh": ["g", "cA", "cB", "nc"],
     "hd": ["g"],
 }
 _LINES_Q = [("tbl", "cA"), ("pp", "g")]
-_OPEN_Q = [("tbl", "cA"), ("tbl", "cB"), ("tbl", "g"), ("gh", "cB")]
+_OPEN_Q = [("tbl", "cA"), ("tbl", "cB"), ("tbl", "g")]
 _CONTROL = [["drop", "A"], ["drop", "B"], ["glob", "A"], ["glob", "B"], ["glob", "N"], ["glob", "-"],
             ["fmt", "tbl", "*"], ["fmt", "tbl", "1:1"], ["f"], ["hnew"], ["hp"]]
 # extra operations of the thorough tier: base + these = 'ext', explored to length 3 (the quick tier explores
@@ -88,7 +88,7 @@ _EXTRA_T = ([["r", "tbl", h] for h in ("cN", "pcA", "pcB", "ponc")] +
             [["r", "gh", h] for h in ("pc", "po")] + [["r", "tbl2", "nc"], ["r", "tbl2", "cB"]] +
             [["r", "rec1", "pc"], ["r", "tbl_s", "cA"], ["r", "tbl_s", "cB"]] +
             [["l", "gh", "cA"], ["l", "tbl", "pc"], ["o0", "tbl", "cA"], ["o0", "pp", "cB"], ["o", "pp", "cA"],
-             ["drop", "N"]])
+             ["drop", "N"], ["r", "tbl2", "cA"], ["r", "rec2", "cA"], ["r", "recr", "cB"], ["o", "gh", "cB"]])
 
 
 # the operations explored one level deeper in the thorough tier (histories of exactly 4 operations)
@@ -252,6 +252,12 @@ def judge(obs, case, acc):
             # console help through a long-lived HCommand: judged against the palette it captured
             if key[1] != case.get("_global_spec", key[1]):
                 acc.feat("hdoc:long-lived-command-shows-colors-of-creation-time")
+        if not ob[4]["kept_ok"]:
+            acc.violation(f"C10:kept-lines-differ:{kind}", _pub(case),
+                          f"line objects of {name} kept by the consumer read differently after the iterator went on "
+                          f"than when they were delivered", _diff(text, ob[4]["imm"]), _diff(ob[4]["imm"], text))
+            label = "viol:kept-lines"
+            continue
         if key[1] in ("nc", "N") and R.ESC in text:
             acc.violation(f"C10:escape-in-no-color:{kind}", _pub(case),
                           f"no_color rendering of {name} contains an escape character", text[:600], want[:600])
@@ -376,9 +382,9 @@ def run_merge(prefix, a, b, order, acc, w):
     feats = ["merge:interleaved" if switches else "merge:sequential", how_feature(a[1]), how_feature(b[1]),
              "obj:table"]
     for ob in obs:
-        if ob[4]:
+        if ob[4]["leftover"]:
             acc.violation("C10:iterator-length:table", case, "a line iterator delivered a different number of "
-                          "lines than the pristine rendering has", ob[4], 0)
+                          "lines than the pristine rendering has", ob[4]["leftover"], 0)
     label = judge(obs, case, acc)
     acc.case(nontrivial=switches >= 1, features=feats, outcome=f"{label}:merge:sw{min(switches, 6)}", traces=2)
     if switches == 5 and order.startswith("abba"):
@@ -438,6 +444,25 @@ def check_static(key, ref, acc):
                           "(items are not CHText objects)",
                           [x[:120] for x in _diff("\n".join(ent["lines_str"]), whole)][:3], _diff(whole, "")[:3])
             label = "viol:line-object"
+    kept = ent["kept"]
+    feats.append("kept:line-objects-read-after-exhaustion")
+    acc.trans(2)
+    problems = []
+    for tag in ("imm", "late", "only_late"):
+        if not same_text(kept["sep"].join(kept[tag]), whole):
+            problems.append(f"texts '{tag}' joined differ from the whole text")
+        lens = kept[tag + "_len"]
+        if any(n is not None and n != len(R.strip_sgr(t)) for n, t in zip(lens, kept[tag])):
+            problems.append(f"len() of a line object ('{tag}') is not the length of its text")
+    if kept["late"] != kept["imm"] or kept["only_late"] != kept["imm"]:
+        problems.append("a kept line object reads differently after the iterator went on")
+    if problems:
+        acc.violation(f"C10:kept-lines-differ:{kind}", case,
+                      "consuming the result piece by piece while keeping the line objects does not give the whole "
+                      "text: " + "; ".join(problems),
+                      {"late": kept["late"][:8], "late_len": kept["late_len"][:8]},
+                      {"delivered": kept["imm"][:8]})
+        label = "viol:kept-lines"
     if route == "global" and kind != "hdoc" and spec != "nc":
         other = ref[(name, fmt, spec, variant, "explicit")]["whole"]
         feats.append("how:global")
